@@ -206,6 +206,7 @@ class ThreadRun:
     exchange_clean = AsyncRun.exchange_clean
     streams_with_token = AsyncRun.streams_with_token
     route_of = AsyncRun.route_of
+    hop_forms = AsyncRun.hop_forms
     _origins_of_calls = AsyncRun._origins_of_calls
     snapshot = AsyncRun.snapshot
     event = AsyncRun.event
@@ -332,6 +333,17 @@ class ThreadRun:
             out["msg"] = str(e)[:120]
             if not isinstance(e, (httpcore.TimeoutException, httpcore.NetworkError, httpcore.ProtocolError, httpcore.ProxyError)):
                 self.internal_errors.append((name, type(e).__name__, str(e)[:120]))
+            # an internal error of the HARNESS (innermost frame under /verif/harness) is never httpcore's doing
+            tb_ = e.__traceback__
+            while tb_ is not None and tb_.tb_next is not None:
+                tb_ = tb_.tb_next
+            inner = tb_.tb_frame.f_code.co_filename if tb_ is not None else ""
+            if isinstance(e, (AttributeError, NameError, TypeError, KeyError, IndexError, UnboundLocalError)) and "/harness/" in inner and "/httpcore/" not in inner:
+                import traceback
+
+                from .tlc import MachineryError
+
+                self.harness_error = MachineryError("the harness itself failed while driving a call:\n" + "".join(traceback.format_exception(e))[-1500:])
         finally:
             sys.settrace(None)
             self.phase[name] = "ended"
@@ -387,6 +399,8 @@ class ThreadRun:
         self.sched.abort()
         hsync.threading = self._orig_threading
         self._undo_clock()
+        if getattr(self, "harness_error", None) is not None:
+            raise self.harness_error
 
 
 def coarse_trace(run):
@@ -430,7 +444,14 @@ def coarse_trace(run):
                 evs.append({"e": "Fault", "r": rid[e["r"]], "c": e.get("conn", 0)})
         elif k == "Return":
             internal = any(n == e["r"] for n, _, _ in run.internal_errors)
-            evs.append({"e": "Ret", "r": rid[e["r"]], "out": "internal" if internal else ("ok" if e["out"] == "ok" else "exc"), "nsent": e.get("nsent", 0)})
+            # why: the signature of KF12 (two threads were given the SAME HTTP/2 stream id: the h2 library
+            # refuses the second HEADERS on it, the other thread's clean-up no longer finds its events)
+            o_ = run.outcome.get(e["r"], {})
+            msg = str(o_.get("msg", ""))
+            why = ""
+            if (o_.get("exc") == "LocalProtocolError" and "SEND_HEADERS in state" in msg) or (o_.get("exc") == "KeyError" and msg.strip("'").isdigit()):
+                why = "dup-stream-id"
+            evs.append({"e": "Ret", "r": rid[e["r"]], "out": "internal" if internal else ("ok" if e["out"] == "ok" else "exc"), "nsent": e.get("nsent", 0), "why": why})
         elif k == "End":
             o = e["obs"]
             evs.append(
@@ -444,4 +465,4 @@ def coarse_trace(run):
                     "open": sorted({s["owner"] for s in o["streams"] if s["open"]}),
                 }
             )
-    return {"cfg": {"n": len(run.order), "maxConn": mc, "maxKeep": mk}, "ev": evs}
+    return {"cfg": {"n": len(run.order), "maxConn": mc, "maxKeep": mk, "mux": bool(kw.get("http2")) and not kw.get("http1", True)}, "ev": evs}
